@@ -147,4 +147,61 @@ theorem dilateModel_le_iff (dt : DT) (A : Img Int) (hs : ∀ d ∈ A.shape, 0 < 
     simp [Array.getD_eq_getD_getElem?, hj]
   rw [this]
 
+/-! ### the adjunction on the model, from a scalar adjunction -/
+
+/-- flat index of the pixel that `p` reaches through the element offset `k` (clamped) -/
+def target (shape : List Nat) (p k : List Int) : Nat := ravelI shape (clampPos shape (addPos p k))
+
+theorem target_lt (shape : List Nat) (hs : ∀ d ∈ shape, 0 < d) (p k : List Int)
+    (hp : p ∈ allPos shape) (hk : k.length = shape.length) : target shape p k < shapeSize shape := by
+  obtain ⟨i, _, rfl⟩ := mem_allPos shape p hp
+  apply ravelI_lt
+  apply inside_clampPos shape _ hs
+  rw [addPos_length _ _ (by rw [hk, unravelI_length]), unravelI_length]
+
+theorem readNearest_target (G : Img Int) (hs : ∀ d ∈ G.shape, 0 < d) (p k : List Int)
+    (hp : p ∈ allPos G.shape) (hk : k.length = G.shape.length) :
+    readNearest G (addPos p k) = G.data.getD (target G.shape p k) 0 := by
+  obtain ⟨i, _, rfl⟩ := mem_allPos G.shape p hp
+  rw [readNearest_eq G _ hs, Img.getD_inside]
+  · rfl
+  · apply inside_clampPos G.shape _ hs
+    rw [addPos_length _ _ (by rw [hk, unravelI_length]), unravelI_length]
+
+/-- **adjunction, generic form**: whenever the scalar operations `dilate_add(·,h)` / `erode_sub(·,h)`
+    are adjoint on the pairs of values that actually meet, the model dilation and the model erosion
+    are adjoint: `δ F ≤ G` pointwise iff `F ≤ ε G` pointwise. -/
+theorem adjunction_core (dt : DT) (F G : Img Int) (sup : List (List Int × Int))
+    (hshape : G.shape = F.shape) (hs : ∀ d ∈ F.shape, 0 < d)
+    (hlen : ∀ kh ∈ sup, kh.1.length = F.shape.length)
+    (hFhi : ∀ p ∈ allPos F.shape, F.getD p dt.lo ≤ dt.hi)
+    (hGlo : ∀ j, j < shapeSize F.shape → dt.lo ≤ G.data.getD j 0)
+    (hsc : ∀ p ∈ allPos F.shape, ∀ kh ∈ sup,
+      (F.getD p dt.lo = dt.lo → dt.lo ≤ erodeSub dt (G.data.getD (target F.shape p kh.1) 0) kh.2) ∧
+      (F.getD p dt.lo ≠ dt.lo →
+        (dilateAdd dt (F.getD p dt.lo) kh.2 ≤ G.data.getD (target F.shape p kh.1) 0 ↔
+         F.getD p dt.lo ≤ erodeSub dt (G.data.getD (target F.shape p kh.1) 0) kh.2))) :
+    (∀ j, j < shapeSize F.shape → (dilateModel dt F sup).getD j dt.lo ≤ G.data.getD j 0) ↔
+    (∀ p ∈ allPos F.shape, F.getD p dt.lo ≤ erodeAt dt G sup p) := by
+  have hsG : ∀ d ∈ G.shape, 0 < d := by rw [hshape]; exact hs
+  constructor
+  · intro h p hp
+    rw [le_erodeAt_iff]
+    refine ⟨hFhi p hp, fun kh hkh => ?_⟩
+    rw [readNearest_target G hsG p kh.1 (by rw [hshape]; exact hp) (by rw [hshape]; exact hlen kh hkh), hshape]
+    have hj := target_lt F.shape hs p kh.1 hp (hlen kh hkh)
+    have hD := (dilateModel_le_iff dt F hs sup _ hj _).mp (h _ hj)
+    by_cases hv : F.getD p dt.lo = dt.lo
+    · rw [hv]; exact (hsc p hp kh hkh).1 hv
+    · exact ((hsc p hp kh hkh).2 hv).mp (hD.2 p hp hv kh hkh rfl)
+  · intro h j hj
+    rw [dilateModel_le_iff dt F hs sup j hj]
+    refine ⟨hGlo j hj, fun p hp hv kh hkh hidx => ?_⟩
+    have hE := ((le_erodeAt_iff dt G sup p _).mp (h p hp)).2 kh hkh
+    rw [readNearest_target G hsG p kh.1 (by rw [hshape]; exact hp) (by rw [hshape]; exact hlen kh hkh), hshape] at hE
+    have := ((hsc p hp kh hkh).2 hv).mpr hE
+    have ht : target F.shape p kh.1 = j := hidx
+    rw [ht] at this
+    exact this
+
 end Mahotas.C02
